@@ -93,31 +93,42 @@ Arguments m_can_advance {E C}. Arguments m_transition {E C}.
 Definition cur_class {E} (st : state_table E) (ng : N) (b : zbuf) : N :=
   match rest b with x :: _ => glyph_class st ng (gid x) | [] => 0 (* END_OF_TEXT *) end.
 
-(* the loop of `drive`.  `rest b = []` is `idx >= len`.  A failed `next_glyph` (length budget) ends the
-   model's run with AMB_ALLOC: the real loop does one more transition on an unspecified buffer. *)
+(* the loop of `drive`; None = out of fuel.  `rest b = []` is `idx >= len`.  A failed `next_glyph`
+   (length budget) ends the model's run with AMB_ALLOC: the real loop does one more transition on an
+   unspecified buffer. *)
+Definition dres (C : Type) := result (C * zbuf * Z * N).
+
 Fixpoint drive_loop {E C} (M : machine E C) (st : state_table E) (ng : N)
-         (fuel : nat) (state : N) (c : C) (b : zbuf) (ops : Z) (amb : N) : result (C * zbuf * Z * N) :=
+         (fuel : nat) (state : N) (c : C) (b : zbuf) (ops : Z) (amb : N) : option (dres C) :=
   match fuel with
-  | O => Error OutOfFuel
+  | O => None
   | S fuel =>
     match st_entry st state (cur_class st ng b) with
-    | None => Ok (c, b, ops, N.lor amb AMB_TABLE)
+    | None => Some (Ok (c, b, ops, N.lor amb AMB_TABLE))
     | Some e =>
-      do r <- m_transition M c e b ops;
-      let '(c1, b1, ops1, a1) := r in
-      let amb1 := N.lor amb a1 in
-      match rest b1 with
-      | [] => Ok (c1, b1, ops1, amb1)
-      | _ :: _ =>
-        if negb (ok b1) then Ok (c1, b1, ops1, N.lor amb1 AMB_ALLOC)
-        else if m_can_advance M e then
-          do b2 <- next_glyph b1;
-          if ok b2 then drive_loop M st ng fuel (m_new_state M e) c1 b2 ops1 amb1
-          else Ok (c1, b2, ops1, N.lor amb1 AMB_ALLOC)
-        else
-          do b2 <- (if (ops1 <=? 0)%Z then next_glyph b1 else Ok b1);
-          if ok b2 then drive_loop M st ng fuel (m_new_state M e) c1 b2 (ops1 - 1)%Z amb1
-          else Ok (c1, b2, (ops1 - 1)%Z, N.lor amb1 AMB_ALLOC)
+      match m_transition M c e b ops with
+      | Error er => Some (Error er)
+      | Ok (c1, b1, ops1, a1) =>
+        let amb1 := N.lor amb a1 in
+        match rest b1 with
+        | [] => Some (Ok (c1, b1, ops1, amb1))
+        | _ :: _ =>
+          if negb (ok b1) then Some (Ok (c1, b1, ops1, N.lor amb1 AMB_ALLOC))
+          else if m_can_advance M e then
+            match next_glyph b1 with
+            | Error er => Some (Error er)
+            | Ok b2 =>
+              if ok b2 then drive_loop M st ng fuel (m_new_state M e) c1 b2 ops1 amb1
+              else Some (Ok (c1, b2, ops1, N.lor amb1 AMB_ALLOC))
+            end
+          else
+            match (if (ops1 <=? 0)%Z then next_glyph b1 else Ok b1) with
+            | Error er => Some (Error er)
+            | Ok b2 =>
+              if ok b2 then drive_loop M st ng fuel (m_new_state M e) c1 b2 (ops1 - 1)%Z amb1
+              else Some (Ok (c1, b2, (ops1 - 1)%Z, N.lor amb1 AMB_ALLOC))
+            end
+        end
       end
     end
   end.
@@ -133,22 +144,31 @@ Definition drive_start (in_place : bool) (b : zbuf) : zbuf :=
 Definition drive {E C} (M : machine E C) (st : state_table E) (ng : N) (c0 : C) (b : zbuf) (ops : Z)
   : result (zbuf * Z * N) :=
   let b0 := drive_start (m_in_place M) b in
-  do r <- drive_loop M st ng (drive_fuel b0 ops) 0 c0 b0 ops 0;
-  let '(_, b1, ops1, amb) := r in
-  if m_in_place M then Ok (b1, ops1, amb)
-  else
-    do s <- sync b1;
-    match s with
-    | Some b2 => Ok (b2, ops1, amb)
-    | None => Ok (b1, ops1, N.lor amb AMB_ALLOC)
-    end.
+  match drive_loop M st ng (drive_fuel b0 ops) 0 c0 b0 ops 0 with
+  | None => Error OutOfFuel
+  | Some (Error e) => Error e
+  | Some (Ok (_, b1, ops1, amb)) =>
+    if m_in_place M then Ok (b1, ops1, amb)
+    else
+      do s <- sync b1;
+      match s with
+      | Some b2 => Ok (b2, ops1, amb)
+      | None => Ok (b1, ops1, N.lor amb AMB_ALLOC)
+      end
+  end.
 
 (* ------------------------------------------------------------------ array helpers (in-place mode) *)
 
 Definition dflt_info : info := mkInfo 0 0 0 0 0.
 Definition aget (a : list info) (i : nat) : info := nth i a dflt_info.
-Definition aset (a : list info) (i : nat) (x : info) : list info :=
-  if (i <? length a)%nat then firstn i a ++ x :: skipn (S i) a else a.
+Fixpoint upd_nth {A} (l : list A) (i : nat) (v : A) : list A :=
+  match l, i with
+  | [], _ => []
+  | _ :: t, O => v :: t
+  | x :: t, S i => x :: upd_nth t i v
+  end.
+(* a[i] = x (in-range writes only: every index the callers compute is inside the marked range) *)
+Definition aset (a : list info) (i : nat) (x : info) : list info := upd_nth a i x.
 Definition aswap (a : list info) (i j : nat) : list info :=
   let x := aget a i in let y := aget a j in aset (aset a i y) j x.
 
@@ -279,12 +299,6 @@ Definition LIG_MAX_MATCHES : nat := 64.
 Definition lig_ctx := (nat * list nat)%type.   (* match_length, match_positions (64 slots) *)
 
 Definition pos_get (ps : list nat) (i : nat) : nat := nth (i mod LIG_MAX_MATCHES) ps O.
-Fixpoint upd_nth {A} (l : list A) (i : nat) (v : A) : list A :=
-  match l, i with
-  | [], _ => []
-  | _ :: t, O => v :: t
-  | x :: t, S i => x :: upd_nth t i v
-  end.
 Definition pos_set (ps : list nat) (i v : nat) : list nat := upd_nth ps (i mod LIG_MAX_MATCHES) v.
 Definition lig_ctx0 : lig_ctx := (O, repeat O LIG_MAX_MATCHES).
 
@@ -397,46 +411,49 @@ Definition ins_block (b : zbuf) (before : bool) (gs : list N) : result zbuf :=
   do b2 <- output_glyphs b1 gs;
   if (nonempty (rest b2) && negb before)%bool then skip_glyph b2 else Ok b2.
 
+(* `checked_insert_count`: the glyphs to insert, and the count used for the final move — nothing
+   and 0 when the list does not hold `count` glyphs from `start` (the real array is unsized, so a
+   miss in the written list is also AMB_TABLE) *)
+Definition ins_checked (glyphs : list N) (start count : N) : list N * nat * N :=
+  match ins_list glyphs start (N.to_nat count) with
+  | Some gs => (gs, N.to_nat count, 0)
+  | None => ([], O, AMB_TABLE)
+  end.
+
 Definition ins_transition (glyphs : list N) (mark : nat) (e : ins_entry) (b : zbuf) (ops : Z)
   : result (nat * zbuf * Z * N) :=
   let fl := ie_flags e in
   let mark_loc := out_len b in
   (* marked insertion; `inr` = the transition returns *)
-  do r1 <- (if ie_marked_index e =? 65535 then Ok (inl (b, ops))
+  do r1 <- (if ie_marked_index e =? 65535 then Ok (inl (b, ops, 0))
             else
               let count := N.land fl 0x1F in
               let ops1 := (ops - Z.of_N count)%Z in
-              if (ops1 <=? 0)%Z then Ok (inr (b, ops1, 0))
+              if (ops1 <=? 0)%Z then Ok (inr (b, ops1))
               else
-                match ins_list glyphs (ie_marked_index e) (N.to_nat count) with
-                | None => Ok (inr (b, ops1, AMB_TABLE))
-                | Some gs =>
-                  let before := has fl 0x0400 in
-                  let en := out_len b in
-                  do b1 <- mv b mark;
-                  do b2 <- ins_block b1 before gs;
-                  do b3 <- mv b2 (en + N.to_nat count);
-                  Ok (inl (b3, ops1))
-                end);
+                let '(gs, cnt, amb) := ins_checked glyphs (ie_marked_index e) count in
+                let before := has fl 0x0400 in
+                let en := out_len b in
+                do b1 <- mv b mark;
+                do b2 <- ins_block b1 before gs;
+                do b3 <- mv b2 (en + cnt);
+                Ok (inl (b3, ops1, amb)));
   match r1 with
-  | inr (b1, ops1, amb) => Ok (mark, b1, ops1, amb)
-  | inl (b1, ops1) =>
+  | inr (b1, ops1) => Ok (mark, b1, ops1, 0)
+  | inl (b1, ops1, amb1) =>
     let mark1 := if has fl 0x8000 then mark_loc else mark in
-    if ie_current_index e =? 65535 then Ok (mark1, b1, ops1, 0)
+    if ie_current_index e =? 65535 then Ok (mark1, b1, ops1, amb1)
     else
       let count := N.shiftr (N.land fl 0x03E0) 5 in
       let ops2 := (ops1 - Z.of_N count)%Z in
-      if (ops2 <? 0)%Z then Ok (mark1, b1, ops2, 0)
+      if (ops2 <? 0)%Z then Ok (mark1, b1, ops2, amb1)
       else
-        match ins_list glyphs (ie_current_index e) (N.to_nat count) with
-        | None => Ok (mark1, b1, ops2, AMB_TABLE)
-        | Some gs =>
-          let before := has fl 0x0800 in
-          let en := out_len b1 in
-          do b2 <- ins_block b1 before gs;
-          do b3 <- mv b2 (if has fl 0x4000 then en else (en + N.to_nat count)%nat);
-          Ok (mark1, b3, ops2, 0)
-        end
+        let '(gs, cnt, amb2) := ins_checked glyphs (ie_current_index e) count in
+        let before := has fl 0x0800 in
+        let en := out_len b1 in
+        do b2 <- ins_block b1 before gs;
+        do b3 <- mv b2 (if has fl 0x4000 then en else (en + cnt)%nat);
+        Ok (mark1, b3, ops2, N.lor amb1 amb2)
   end.
 
 Definition ins_machine (glyphs : list N) : machine ins_entry nat :=
